@@ -56,9 +56,15 @@ CHECKS={
    text="Bounded-exhaustive: ALL ordered selections of <=2 / <=3 paths from 7 templates x 3 placements of the Path directive x every subset of declared parameters x inline / referenced body, against the reference binding (expected verdict and expected pathVariables of every interaction); 17 faulty variants must be rejected; the splitter against the reference for ALL strings of length <= 7 / 8 over {/ { } a}.",
    ref="DESIGN.md §5 C13", note="Bound: the 7 path templates (depth <= 4, two parameter names).",
    technique=T_MC+"bounded-exhaustive enumeration of path trees and declarations against a reference binding; exhaustive strings for the splitter"),
+ "C06":dict(engine="E-CTX",
+   text="Complete exploration of the context-resolution state graph: every reachable configuration of the reference resolver (stack of open directives with explicit flags + pending directive; 343k states) x every token (29 directive kinds, path-less and path-bearing methods, parentheses): each transition runs the real scanner + scanProject on the rendered sequence and compares the directive forest, the kind of rejection and the position of the incorrect-context diagnostic with the reference resolver written from the property's sentence; second phase: every single-directive (thorough: <=2) macro body pasted at the representative of every state, forest after paste expansion vs reference resolution of the inlined sequence.",
+   ref="DESIGN.md §4 E-CTX, §5 C06",
+   note="Inputs of unbounded length are covered because the state space is finite and explored completely. Trusted: the library's public admissibility predicates as the table. '(' with no pending directive is outside the sentence (C01).",
+   technique=T_MC+"explicit-state BFS over the reference resolver's state graph with every transition replayed against the real scan phase (traces validated against the implementation)"),
 }
 ENGINES=[
  {"name":"E-SCAN","path":"internal/escan","serves_properties":["C14"],"kind_free_text":"explicit-state BFS over the real scanner.Next with a per-byte hook; abstract key cross-checked by second representatives"},
+ {"name":"E-CTX","path":"internal/checks/c06.go","serves_properties":[],"kind_free_text":"explicit-state BFS over the reference context resolver; every transition replayed through the real scanner + scanProject and paste expansion via verif-tagged dumps"},
  {"name":"E-STR","path":"internal/checks (c13 c15 c17 c19)","serves_properties":[],"kind_free_text":"all strings / texts up to a length bound over a stress alphabet, through hooked functions and end to end, against reference rules written from the property statements"},
  {"name":"E-DOC","path":"internal/doc + internal/checks","serves_properties":["C05"],"kind_free_text":"bounded-exhaustive document enumeration (block pool, renderer with spans) with metamorphic partners, sharded over crash-isolated worker processes (internal/fw)"},
 ]
